@@ -12,6 +12,7 @@ import (
 	"net/http"
 	"net/http/httptest"
 	"net/url"
+	"runtime"
 	"sort"
 	"strconv"
 	"strings"
@@ -92,12 +93,22 @@ type afSign struct {
 	In      string `json:"in"` // query | form
 }
 
+// afProvRedeem: one direct call of a provider's Redeem (the provider as its constructor builds it) against the scripted IdP
+type afProvRedeem struct {
+	Provider string `json:"provider"` // google | okta | cognito
+	Code     string `json:"code"`
+	Token    afIdP  `json:"idpToken"`
+	User     afIdP  `json:"idpUserinfo"`
+}
+
 type afCase struct {
-	ConfigCheck bool     `json:"configCheck,omitempty"` // the configuration-validation check instead of a step list
-	Domains     []string `json:"domains"`               // allowed e-mail domains
-	Addresses   []string `json:"addresses"`             // or addresses
-	Roots       []string `json:"roots"`                 // proxy root domains
-	Steps       []afStep `json:"steps"`
+	Overlap     int            `json:"overlap,omitempty"`     // back-channel requests of several callers in flight at once (rounds)
+	ProvRedeem  []afProvRedeem `json:"provRedeem,omitempty"`  // direct provider.Redeem calls instead of a step list
+	ConfigCheck bool           `json:"configCheck,omitempty"` // the configuration-validation check instead of a step list
+	Domains     []string       `json:"domains"`               // allowed e-mail domains
+	Addresses   []string       `json:"addresses"`             // or addresses
+	Roots       []string       `json:"roots"`                 // proxy root domains
+	Steps       []afStep       `json:"steps"`
 }
 
 type afWorld struct {
@@ -135,7 +146,7 @@ func (t afTransport) RoundTrip(r *http.Request) (*http.Response, error) {
 		} else {
 			kind = "token"
 		}
-	case strings.HasSuffix(r.URL.Path, "/userinfo"):
+	case strings.HasSuffix(strings.ToLower(r.URL.Path), "/userinfo"):
 		kind = "userinfo"
 	case strings.HasSuffix(r.URL.Path, "/tokeninfo"), strings.HasSuffix(r.URL.Path, "/introspect"):
 		kind = "validate"
@@ -588,11 +599,16 @@ func (w *afWorld) step(st *afStep) M {
 		if c.Name == cname && c.Value == "" {
 			delete(w.jar, st.Slug)
 		}
+		expired := c.MaxAge < 0 || (!c.Expires.IsZero() && c.Expires.Before(time.Now()))
+		e["expired"] = expired
 		if c.Name == cname+"_csrf" {
-			if c.Value == "" {
+			// like a browser: an expired cookie is dropped, anything else is kept — also with an empty value
+			if expired {
 				delete(w.csrfJar, st.Slug)
 			} else {
 				w.csrfJar[st.Slug] = c.Value
+			}
+			if c.Value != "" {
 				e["value"] = c.Value
 			}
 		}
@@ -646,8 +662,8 @@ func (w *afWorld) step(st *afStep) M {
 		kind = "sign-out-page"
 	case strings.Contains(bs, "<title>Error</title>"):
 		kind = "error-page"
-	case strings.HasPrefix(strings.TrimSpace(bs), "{"):
-		kind = "json"
+	case strings.HasPrefix(strings.TrimSpace(bs), "{"), strings.HasPrefix(res.Header.Get("Content-Type"), "application/json"):
+		kind = "json" // looks like JSON, or is declared to be: either way it has to parse
 	}
 	leaks := []string{}
 	for _, mk := range []string{"access_token", "refresh_token", "\"email\"", "\"groups\"", "expires_in"} {
@@ -673,8 +689,11 @@ func (w *afWorld) step(st *afStep) M {
 	}
 	if kind == "json" {
 		var anyv map[string]interface{}
-		out["jsonOK"] = json.Unmarshal(rb, &anyv) == nil
-		out["json"] = anyv
+		var whatever interface{}
+		out["jsonOK"] = json.Unmarshal(rb, &whatever) == nil
+		if json.Unmarshal(rb, &anyv) == nil {
+			out["json"] = anyv
+		}
 	}
 	if len(bs) > 300 {
 		bs = bs[:300]
@@ -843,9 +862,185 @@ func afConfigCheck() M {
 	return M{"cfgcheck": rows, "raw": afCase{ConfigCheck: true}}
 }
 
+// afProvRedeemRun: Redeem of each provider, built by its own constructor, against scripted token/userinfo answers.
+func afProvRedeemRun(c afCase) M {
+	var rows []M
+	for _, r := range c.ProvRedeem {
+		w := &afWorld{}
+		st := &afStep{Token: r.Token, User: r.User}
+		w.cur = st
+		aprov.VerifSetHTTPTransport(afTransport{w})
+		pd := &aprov.ProviderData{ClientID: "cid", ClientSecret: "csecret", SessionLifetimeTTL: 3600 * time.Second}
+		var prov aprov.Provider
+		var err error
+		switch r.Provider {
+		case "google":
+			var g *aprov.GoogleProvider
+			g, err = aprov.NewGoogleProvider(pd, "", "", "", "")
+			if err == nil {
+				g.SetStatsdClient(getStatsd())
+				prov = g
+			}
+		case "okta":
+			var o *aprov.OktaProvider
+			o, err = aprov.NewOktaProvider(pd, "idp.okta.test", "default")
+			if err == nil {
+				o.SetStatsdClient(getStatsd())
+				prov = o
+			}
+		case "cognito":
+			var a *aprov.AmazonCognitoProvider
+			a, err = aprov.NewAmazonCognitoProvider(pd, "idp.cognito.test", "us-east-1", "pool", "aws-id", "aws-secret")
+			if err == nil {
+				a.SetStatsdClient(getStatsd())
+				prov = a
+			}
+		default:
+			err = fmt.Errorf("unknown provider %q", r.Provider)
+		}
+		row := M{"in": r}
+		if err != nil {
+			row["setupError"] = err.Error()
+			rows = append(rows, row)
+			continue
+		}
+		out := M{}
+		now := time.Now()
+		func() {
+			defer func() {
+				if x := recover(); x != nil {
+					out["kind"], out["panic"] = "panic", fmt.Sprint(x)
+				}
+			}()
+			ss, rerr := prov.Redeem("https://"+afHost+"/"+r.Provider+"/callback", r.Code)
+			if rerr != nil || ss == nil {
+				out["kind"], out["err"] = "error", fmt.Sprint(rerr)
+				return
+			}
+			out["kind"] = "session"
+			out["email"], out["access"], out["refreshTok"] = ss.Email, ss.AccessToken, ss.RefreshToken
+			out["refresh"], out["lifetime"] = round10(ss.RefreshDeadline.Sub(now)), round10(ss.LifetimeDeadline.Sub(now))
+		}()
+		var kinds []string
+		var calls []M
+		w.mu.Lock()
+		for _, cl := range w.idpCalls {
+			kinds = append(kinds, cl["kind"].(string))
+			calls = append(calls, cl)
+		}
+		w.mu.Unlock()
+		row["out"], row["idpKinds"], row["idpCalls"] = out, kinds, calls
+		ora := M{}
+		ora["idTokenEmail"], ora["idTokenOK"], ora["idTokenSegments"], ora["idTokenDecoded"], ora["idTokenVerified"] = idTokenOracle(r.Token.IDToken)
+		row["oracle"] = ora
+		rows = append(rows, row)
+	}
+	return M{"provRedeem": rows, "raw": c}
+}
+
+// slowWriter: a client connection that takes its time — the handler's goroutine is descheduled when it starts to write,
+// as it is whenever a socket write blocks.
+type slowWriter struct {
+	*httptest.ResponseRecorder
+	yielded bool
+}
+
+func (s *slowWriter) Write(b []byte) (int, error) {
+	if !s.yielded {
+		s.yielded = true
+		runtime.Gosched()
+	}
+	return s.ResponseRecorder.Write(b)
+}
+
+// afOverlap: several proxies' back-channel calls in flight at once — each /redeem with its own genuine code, next to callers
+// that present no secret. Every answer is about the caller's own code; an answer to a caller without the secret carries
+// nothing of anybody's session.
+func afOverlap(c afCase) M {
+	w, err := newAfWorld(afCase{Domains: []string{"x.io"}, Roots: []string{"x.io"}})
+	if err != nil {
+		return M{"setupError": err.Error(), "raw": c}
+	}
+	defer w.close()
+	now := time.Now()
+	const callers = 8
+	codes := make([]string, callers)
+	for i := range codes {
+		codes[i] = w.sealSess(w.codeCi, &afSess{Email: fmt.Sprintf("user%d@x.io", i), Access: fmt.Sprintf("access-of-%d-%s", i, strings.Repeat("x", i*7)), RefreshTok: fmt.Sprintf("refresh-of-%d", i), Refresh: 600, Lifetime: 3000, Valid: 60}, now)
+	}
+	var mu sync.Mutex
+	counts := map[string]int{"redeems": 0, "foreign": 0, "garbled": 0, "refusals": 0, "leaked": 0, "panics": 0}
+	first := map[string]string{}
+	note := func(k, d string) {
+		mu.Lock()
+		counts[k]++
+		if _, ok := first[k]; !ok && d != "" {
+			first[k] = d
+		}
+		mu.Unlock()
+	}
+	call := func(i int, withSecret bool) {
+		defer func() {
+			if x := recover(); x != nil {
+				note("panics", fmt.Sprint(x))
+			}
+		}()
+		form := url.Values{"client_id": {afProxyID}, "code": {codes[i]}}
+		if withSecret {
+			form.Set("client_secret", afProxySecret)
+		}
+		req := httptest.NewRequest("POST", "https://"+afHost+"/google/redeem", strings.NewReader(form.Encode()))
+		req.Host = afHost
+		req.Header.Set("Content-Type", "application/x-www-form-urlencoded")
+		req.Header.Set("Accept", "application/json")
+		rec := &slowWriter{ResponseRecorder: httptest.NewRecorder()}
+		w.mux.ServeHTTP(rec, req)
+		body := rec.Body.String()
+		if withSecret {
+			var got struct {
+				Email        string `json:"email"`
+				AccessToken  string `json:"access_token"`
+				RefreshToken string `json:"refresh_token"`
+			}
+			if rec.Code != 200 || json.Unmarshal([]byte(body), &got) != nil {
+				note("garbled", fmt.Sprintf("caller %d: status %d body %.80q", i, rec.Code, body))
+			} else if got.Email != fmt.Sprintf("user%d@x.io", i) || !strings.HasPrefix(got.AccessToken, fmt.Sprintf("access-of-%d-", i)) || got.RefreshToken != fmt.Sprintf("refresh-of-%d", i) {
+				note("foreign", fmt.Sprintf("the code of user%d@x.io was answered with %s / %.24s", i, got.Email, got.AccessToken))
+			}
+			note("redeems", "")
+		} else {
+			if rec.Code == 200 || strings.Contains(body, "access") || strings.Contains(body, "refresh-of") || strings.Contains(body, "@x.io") {
+				note("leaked", fmt.Sprintf("no secret presented: status %d body %.80q", rec.Code, body))
+			}
+			note("refusals", "")
+		}
+	}
+	for r := 0; r < c.Overlap; r++ {
+		var wg sync.WaitGroup
+		start := make(chan struct{})
+		for i := 0; i < callers; i++ {
+			wg.Add(1)
+			go func(i int) {
+				defer wg.Done()
+				<-start
+				call(i, i%4 != 3)
+			}(i)
+		}
+		close(start)
+		wg.Wait()
+	}
+	return M{"overlap": counts, "first": first, "rounds": c.Overlap, "callers": callers, "raw": c}
+}
+
 func afRun(c afCase) M {
 	if c.ConfigCheck {
 		return afConfigCheck()
+	}
+	if c.Overlap > 0 {
+		return afOverlap(c)
+	}
+	if len(c.ProvRedeem) > 0 {
+		return afProvRedeemRun(c)
 	}
 	w, err := newAfWorld(c)
 	if err != nil {
